@@ -271,7 +271,12 @@ pub fn scan(src: &str) -> Scan {
         }};
     }
 
-    for (ev, range) in Parser::new_ext(src, options()).into_offset_iter() {
+    // the parser itself panics on rare inputs (its wiki-link handling on "![[a]|b](c)]]"): collect the events first, fall back
+    // to parsing without wiki links, then to nothing (the scanner must never take a worker down)
+    let events: Vec<(Event<'_>, Range<usize>)> = std::panic::catch_unwind(|| Parser::new_ext(src, options()).into_offset_iter().collect::<Vec<_>>())
+        .or_else(|_| std::panic::catch_unwind(|| Parser::new_ext(src, Options::ENABLE_YAML_STYLE_METADATA_BLOCKS | Options::ENABLE_TABLES).into_offset_iter().collect::<Vec<_>>()))
+        .unwrap_or_default();
+    for (ev, range) in events {
         if in_meta {
             match ev {
                 // the block may arrive in several text events (one per line with CRLF line endings)
